@@ -93,9 +93,11 @@ func run(tier string) int {
 	// cheap grammar first so that a deadline never starves it
 	doneQ := work(qdocs, "quantity", 0)
 	doneI := work(illformed, "illformed", 0)
+	ndocs, nill := Enumerate(namesScope())
+	doneN := work(ndocs, "names", permMode) + work(nill, "illformed", 0)
 	doneD := work(docs, "document", permMode)
 
-	exhaustive := doneQ == int64(len(qdocs)) && doneD == int64(len(docs)) && doneI == int64(len(illformed))
+	exhaustive := doneQ == int64(len(qdocs)) && doneD == int64(len(docs)) && doneI == int64(len(illformed)) && doneN == int64(len(ndocs)+len(nill))
 	c := counters.Map()
 	cov := evlib.Coverage{
 		Evaluations:        c["reads"],
@@ -110,6 +112,9 @@ func run(tier string) int {
 		Exhaustive: exhaustive,
 		Extra: map[string]interface{}{
 			"documents_in_grammar":          len(docs),
+			"name_documents_in_grammar":     len(ndocs),
+			"name_grammar":                  namesScope().Describe(),
+			"runs_per_document":             fmt.Sprintf("2 fresh parse+derive runs; %d when two names of one map differ only in letter case", tieRuns),
 			"documents_checked":             doneD,
 			"illformed_candidates":          len(illformed),
 			"illformed_candidates_checked":  doneI,
@@ -126,6 +131,7 @@ func run(tier string) int {
 		"the generator's structured description of a document is the reference for faithfulness; expectations never call sdl code",
 		"key orders are bounded as stated in rule; YAML features outside the emitted subset (anchors, flow style, comments) are not covered",
 		"resource units of a deployment group are anonymous, so they are compared as a multiset per group",
+		fmt.Sprintf("dependence on Go's randomised map iteration is looked for by repetition of the runtime's choice, not by sampling inputs: documents with a case-only name tie are parsed and derived %d times and all outputs compared (a 2-key tie left to map order escapes with probability 2^-%d per document); independently, the order of groups / manifest groups is compared with the byte-wise ascending name order on every document, which is deterministic", tieRuns, tieRuns-1),
 	})
 }
 
